@@ -1463,4 +1463,76 @@ theorem polyBdryContains_iff_near (tol : K) (h0 : 0 ≤ tol) (P : Polygon K) (p 
     obtain ⟨e, he, hp⟩ := hq
     exact ⟨h0, e, he, (segDist2_le e.1 e.2 p q hp).trans hd⟩
 
+/-! ## 8. boundary length -/
+
+/-- **`boundary.volume()` of a triangle is the closed form `triBdryVol` of `TriangleBoundary._get_volume`** -/
+theorem polyBdryLen_triangle [Transc K] (ox oy ax ay bx cy : K) :
+    polyBdryLen Transc.sqrt ⟨[(ox, oy), (ax, ay), (bx, cy)], []⟩ = triBdryVol ox oy ax ay bx cy := by
+  simp only [polyBdryLen, polyEdges, ringEdges, rot1, List.cons_append, List.nil_append, List.zip_cons_cons,
+    List.zip_nil_right, List.map_nil, List.flatten_nil, List.append_nil, List.map_cons, sumK, List.foldr_cons,
+    List.foldr_nil, dist2, triBdryVol, norm2, add_zero]
+  ring
+
+/-- … and of a parallelogram `parBdryVol` -/
+theorem polyBdryLen_parallelogram [Transc K] (ox oy ax ay bx cy : K) :
+    polyBdryLen Transc.sqrt ⟨[(ox, oy), (ax, ay), (ax + bx - ox, ay + cy - oy), (bx, cy)], []⟩ =
+      parBdryVol ox oy ax ay bx cy := by
+  simp only [polyBdryLen, polyEdges, ringEdges, rot1, List.cons_append, List.nil_append, List.zip_cons_cons,
+    List.zip_nil_right, List.map_nil, List.flatten_nil, List.append_nil, List.map_cons, sumK, List.foldr_cons,
+    List.foldr_nil, dist2, parBdryVol, norm2, add_zero]
+  have e1 : (ax + bx - ox - ax) * (ax + bx - ox - ax) + (ay + cy - oy - ay) * (ay + cy - oy - ay) =
+      (bx - ox) * (bx - ox) + (cy - oy) * (cy - oy) := by ring
+  have e2 : (bx - (ax + bx - ox)) * (bx - (ax + bx - ox)) + (cy - (ay + cy - oy)) * (cy - (ay + cy - oy)) =
+      (ax - ox) * (ax - ox) + (ay - oy) * (ay - oy) := by ring
+  have e3 : (ox - bx) * (ox - bx) + (oy - cy) * (oy - cy) = (bx - ox) * (bx - ox) + (cy - oy) * (cy - oy) := by ring
+  rw [e1, e2, e3]
+  ring
+
+/-! ## 9. non-vacuity: the theorems above on concrete rational polygons -/
+
+/-- an L-shape (non-convex), counter-clockwise -/
+def Lsh : Polygon ℚ := ⟨[(0, 0), (2, 0), (2, 1), (1, 1), (1, 2), (0, 2)], []⟩
+/-- a square with a square hole; exterior clockwise and hole counter-clockwise, i.e. both "wrong" for `orient` -/
+def SqH : Polygon ℚ := ⟨[(0, 0), (0, 4), (4, 4), (4, 0)], [[(1, 1), (2, 1), (2, 2), (1, 2)]]⟩
+/-- a right triangle, counter-clockwise -/
+def Tri : Polygon ℚ := ⟨[(0, 0), (4, 0), (0, 3)], []⟩
+
+-- area: start vertex, direction, translation (shoelace2_rotate / _reverse / _translate), closed forms, orientation
+example : shoelace2 Lsh.outer = 6 ∧ shoelace2 (Lsh.outer.rotate 2) = 6 ∧ shoelace2 Lsh.outer.reverse = -6 ∧
+    shoelace2 (Lsh.outer.map (shift (3, -5/2))) = 6 := by decide +kernel
+example : polyArea Lsh = 3 ∧ polyArea SqH = 15 ∧ polyArea Tri = 6 ∧ polyArea ⟨Tri.outer.reverse, []⟩ = 6 := by decide +kernel
+example : (polyOrient SqH).outer = [(0, 0), (4, 0), (4, 4), (0, 4)] ∧ (polyOrient SqH).holes = [[(1, 1), (1, 2), (2, 2), (2, 1)]] ∧
+    polyArea (polyOrient SqH) = 15 ∧ shoelace2 (polyOrient SqH).outer = 32 := by decide +kernel
+example : polyArea ⟨[((1:ℚ), 1), (3, 1), (3, 4), (1, 4)], []⟩ = (3 - 1) * (4 - 1) := by decide +kernel
+-- bounding box: vertices, convex combinations, accepted points; a point of the box that is not in the polygon
+example : polyBBox Lsh = some (0, 2, 0, 2) ∧ polyContains Lsh (1/2, 3/2) = true ∧ inBox (0, 2, 0, 2) ((1/2 : ℚ), 3/2) = true ∧
+    polyContains Lsh (3/2, 3/2) = false ∧ inBox (0, 2, 0, 2) ((3/2 : ℚ), 3/2) = true := by decide +kernel
+example : inBox (0, 2, 0, 2) (([((1/4 : ℚ), ((2 : ℚ), (1 : ℚ))), (3/4, (0, 2))].map fun x => x.1 * x.2.1).sum,
+    ([((1/4 : ℚ), ((2 : ℚ), (1 : ℚ))), (3/4, (0, 2))].map fun x => x.1 * x.2.2).sum) = true := by decide +kernel
+-- membership: holes, edges, orientation independence
+example : polyContains SqH (3, 3) = true ∧ polyContains SqH (3/2, 3/2) = false ∧ polyContains SqH (1, 3/2) = false ∧
+    onPolyBdry SqH (1, 3/2) = true ∧ polyCovers SqH (1, 3/2) = true ∧ polyContains SqH (5, 1) = false ∧
+    polyContains (polyOrient SqH) (3, 3) = true := by decide +kernel
+example : ringLocate Lsh.outer (1/2, 3/2) = .interior ∧ ringLocate Lsh.outer.reverse (1/2, 3/2) = .interior ∧
+    ringLocate (Lsh.outer.rotate 3) (1/2, 3/2) = .interior ∧ ringLocate Lsh.outer (1, 3/2) = .boundary := by decide +kernel
+-- rectangle = interval test
+example : polyContains ⟨[((1:ℚ), 1), (3, 1), (3, 4), (1, 4)], []⟩ (2, 2) = true ∧
+    polyContains ⟨[((1:ℚ), 1), (3, 1), (3, 4), (1, 4)], []⟩ (3, 2) = false ∧
+    polyContains ⟨[((1:ℚ), 1), (3, 1), (3, 4), (1, 4)], []⟩ (2, 5) = false := by decide +kernel
+-- triangle: hypotheses of tri_contains_iff / tri_covers_iff_mem / convex_contains_iff_partial are satisfiable
+example : 0 < orient ((0:ℚ), 0) (4, 0) (0, 3) ∧ polyContains Tri (1, 1) = true ∧
+    0 < orient ((0:ℚ), 0) (4, 0) (1, 1) ∧ 0 < orient ((4:ℚ), 0) (0, 3) (1, 1) ∧ 0 < orient ((0:ℚ), 3) (0, 0) (1, 1) ∧
+    polyContains Tri (2, 3/2) = false ∧ polyCovers Tri (2, 3/2) = true ∧ polyCovers Tri (3, 3) = false := by decide +kernel
+example : polyCovers Tri (2, 3/2) = true ↔
+    mem (.tri "x" (PFun.const [0, 0]) (PFun.const [4, 0]) (PFun.const [0, 3])) [("x", [(2:ℚ), 3/2])] [] :=
+  tri_covers_iff_mem "x" _ _ _ _ _ 2 (3/2) 0 0 4 0 0 3 rfl rfl rfl rfl (by norm_num)
+example : StrictConvexCCW Tri.outer := by
+  refine ⟨by decide +kernel, ?_⟩
+  decide +kernel
+-- the boundary test: exact edge points, a near point, far points
+example : polyBdryContains (1/1000000) SqH (1, 3/2) = true ∧ polyBdryContains (1/1000000) SqH (4, 1) = true ∧
+    polyBdryContains (1/1000000) SqH (1 + 1/2000000, 3/2) = true ∧ onPolyBdry SqH (1 + 1/2000000, 3/2) = false ∧
+    polyBdryContains (1/1000000) SqH (3, 3) = false ∧ polyBdryContains (1/1000000) SqH (1 + 1/500000, 3/2) = false ∧
+    bdryDist2 SqH (3, 3) = some 1 ∧ polyMargin SqH (1, 3/2) = some 0 := by decide +kernel
+
 end TPV.Poly
